@@ -321,6 +321,12 @@ def check_all_steps_and_storage(ctx, rule_steps, rule_dtype):
                 like = e.data["callee"].endswith("_like")
                 proto = getattr(buf, "proto", None)
                 from_arg = like and proto is not None and bool(nf.symbols(it.to_nf(proto)) & set(ctx.P.func(q).params))
+                if from_arg:
+                    # an index array (argsort / searchsorted / arange / nonzero ...) has the platform's index type whatever
+                    # the dtype of the data it was computed from
+                    pa = it.single_atom(it.to_nf(proto))
+                    if pa is not None and pa[0] == "fn" and pa[1].split("{")[0].split(".")[-1] in ("argsort", "lexsort", "searchsorted", "arange", "flatnonzero", "nonzero", "argmax", "argmin", "argwhere"):
+                        from_arg = False
                 ok = (dt is None and not from_arg) or f64
                 ctx.check(
                     ok, rule_dtype, q + f":{e.data['callee'].split('.')[-1]} dtype", f"{f.file}:{e.line}",
